@@ -61,6 +61,23 @@ Definition reject_npts (npts : Z) : bool := (npts <=? 0)%Z.           (* util.py
 Definition idx_lo (i : Z) : Z := (i - 1)%Z.
 Definition idx_hi (npts i : Z) : Z := (npts + 1 - i - 1)%Z.
 
+(* lines 74-77 as what they are: writes into the arrays PyArray_ZEROS allocated.
+   for (i = i0; ...; ++i) { a[i-1] = lo_i; a[npts+1-i-1] = hi_i; }   ([los], [his]: the values of the
+   remaining passes).  FillProofs.fill_loop_is_mirror_fill: for m = (npts+1)/2 passes from i = 1 on
+   an array of length npts this is [mirror_fill] (for odd npts the middle entry is written twice). *)
+Fixpoint upd {A} (l : list A) (k : nat) (v : A) : list A :=
+  match l, k with
+  | [], _ => []
+  | _ :: t, O => v :: t
+  | a :: t, S k' => a :: upd t k' v
+  end.
+Fixpoint fill_loop {A} (npts i : Z) (los his arr : list A) : list A :=
+  match los, his with
+  | lo :: lt, hi :: ht =>
+    fill_loop npts (i + 1) lt ht (upd (upd arr (Z.to_nat (idx_lo i)) lo) (Z.to_nat (idx_hi npts i)) hi)
+  | _, _ => arr
+  end.
+
 (* lines 59-66: p1=1; p2=0; for j=1..npts { p3=p2; p2=p1; p1=((2.0*j-1.0)*z*p2-(j-1.0)*p3)/j; }
    [j] is the int loop counter converted to double (exact) *)
 Fixpoint legendre (cnt : nat) (j z p1 p2 : float) : float * float :=
@@ -144,6 +161,29 @@ Definition gauleg_gen (orig : bool) (x1 x2 : float) (npts : Z) (coss : list floa
         let hi := map (fun zp => x_hi xm xl (fst zp)) r in
         let w := map (fun zp => w_of xl (fst zp) (snd zp)) r in
         Ok (mirror_fill n lo hi, mirror_fill n w w)
+      end.
+
+(* the same function with the two output arrays produced the way the C code produces them:
+   zero-initialised arrays (PyArray_ZEROS) and the writes of lines 74-77 in loop order.
+   FillProofs.gauleg_writes_eq:  gauleg_gen_w = gauleg_gen. *)
+Definition gauleg_gen_w (orig : bool) (x1 x2 : float) (npts : Z) (coss : list float)
+  : result (list float * list float) :=
+  if reject_npts npts then Err EValue
+  else
+    let n := Z.to_nat npts in
+    let m := Z.to_nat (m_of npts) in
+    if negb (Nat.eqb (length coss) m) then Err EOther
+    else
+      let nf := of_Z npts in
+      let xm := xm_of x1 x2 in
+      let xl := xl_of x1 x2 in
+      match roots orig NEWTON_FUEL n nf coss Z1_INIT PP_INIT with
+      | None => Err EFuel
+      | Some r =>
+        let lo := map (fun zp => x_lo xm xl (fst zp)) r in
+        let hi := map (fun zp => x_hi xm xl (fst zp)) r in
+        let w := map (fun zp => w_of xl (fst zp) (snd zp)) r in
+        Ok (fill_loop npts 1 lo hi (repeat zero n), fill_loop npts 1 w w (repeat zero n))
       end.
 
 Definition gauleg := gauleg_gen false.        (* repaired code (do-while) *)
@@ -269,6 +309,31 @@ Definition integrate_func2 (wx wy : list float) (x1 x2 y1 y2 : float) (zs : list
   let yf1 := xf1_of y1 y2 in
   match np_sum (map2 integrand_of zs (grid_w wx wy)) with
   | Some s => Some (result2_of xf1 yf1 s)
+  | None => None
+  end.
+
+(* ---- array shapes in QGauss2 (numpy broadcasting of 2-d shapes; None = ValueError "operands could
+   not be broadcast together").  _setup: mesh = meshgrid(x, y) has shape (ny, nx);
+   wxgrid = ones(S) * wx[newaxis, :]  (1, nx);  wygrid = ones(S) * wy[:, newaxis]  (ny, 1);
+   wgrid = wxgrid * wygrid;  integrate_func: integrand = zvals (mesh shape) * wgrid.
+   S = (ny, nx) in the repaired code, (nx, ny) in the unchanged code ([orig]). *)
+Definition bdim (a b : Z) : option Z :=
+  if (a =? b)%Z then Some a else if (a =? 1)%Z then Some b else if (b =? 1)%Z then Some a else None.
+Definition bshape (s t : Z * Z) : option (Z * Z) :=
+  match bdim (fst s) (fst t), bdim (snd s) (snd t) with
+  | Some a, Some b => Some (a, b)
+  | _, _ => None
+  end.
+Definition wgrid_shape (orig : bool) (nx ny : Z) : option (Z * Z) :=
+  let S := if orig then (nx, ny) else (ny, nx) in
+  match bshape S (1%Z, nx), bshape S (ny, 1%Z) with
+  | Some a, Some b => bshape a b
+  | _, _ => None
+  end.
+Definition mesh_shape (nx ny : Z) : Z * Z := (ny, nx).
+Definition integrand_shape (orig : bool) (nx ny : Z) : option (Z * Z) :=
+  match wgrid_shape orig nx ny with
+  | Some w => bshape (mesh_shape nx ny) w
   | None => None
   end.
 
